@@ -99,9 +99,9 @@ def open_kind(kind: str, rng, ctx, overflow: bool = False) -> Opened:
             st = {g: rng.choice("AAZ") for g in range(ngr) if rng.random() < (0.2 if overflow else 0.6)}
             sf, layer, meta = wvmdk.build_hosted(rng, capacity=cap, grain=grain, ngte=ngte, states=st, placement="shuffle", tag=tag, empty_tables=False)
         elif sub == "stream":
-            grain, ngte = 8, 128
+            grain, ngte = rng.choice([8, 32, 64]), 128
             cap = grain * ngte * rng.randrange(1, 3) + rng.randrange(1, 900)
-            sf, layer, meta = wvmdk.build_stream_optimized(rng, capacity=cap, grain=grain, ngte=ngte, tag=tag)
+            sf, layer, meta = wvmdk.build_stream_optimized(rng, capacity=cap, grain=grain, ngte=ngte, tag=tag, slots=rng.random() < 0.5)
         elif sub == "cowd":
             grain = 1
             ntab = rng.randrange(130, 134) if overflow else rng.randrange(1, 4)
@@ -149,13 +149,17 @@ def open_kind(kind: str, rng, ctx, overflow: bool = False) -> Opened:
         ss = 4096 if kind.endswith("4k") else 512
         bs = 1 << 20
         ratio = (2**23 * ss) // bs
-        n = rng.randrange(4200, 4400) if overflow and ss == 512 else rng.randrange(2, 9)
+        # more than 4 GiB of 1 MiB blocks: beyond the first sector-bitmap chunk for 512-byte sectors, and beyond what a
+        # "4 GiB per chunk" shortcut gets right for 4096-byte sectors
+        n = rng.randrange(4200, 4400) if (overflow or rng.random() < 0.3) else rng.randrange(2, 9)
         states = [0] * n
         for _ in range(12 if n > 100 else n):
             states[rng.randrange(n)] = rng.choice([6, 6, 6, 2, 3])
         states[n - 1] = 6
         if n > ratio:
             states[ratio - 1] = states[ratio] = 6
+        if n > 4097:
+            states[4095] = states[4096] = states[4097] = 6
         tail = rng.choice([0, rng.randrange(0, bs // ss)])
         sf, layer, meta = wvhdx.build(rng, block_size=bs, sector_size=ss, nblocks=n, tail_cut_sectors=tail, states=states,
                                       placement="shuffle", tag=tag, checksums=False)
